@@ -1,6 +1,8 @@
 import TxdbusModel.Proofs.Net.EndToEnd
 import TxdbusModel.Proofs.Net.Link
+import TxdbusModel.Proofs.Net.LinkTxdbus
 import TxdbusModel.Proofs.Net.Progress
+import TxdbusModel.Proofs.Net.Agree
 import TxdbusModel.Net.OldBus
 /-!
 # C11 - a call through a proxy reaches the remote method and returns what it returned
@@ -35,28 +37,53 @@ variable {V : Type}
 
 /-! ## 1. the link assumption -/
 
-/-- **C11.1**  For every codec satisfying the framing/parsing laws, every list of messages and every way
-of cutting their byte stream into reads (empty reads, several messages per read, cuts inside a message):
-the receiver completes exactly the sent messages, in order, each once, normalised, with nothing left in
-its buffer; and after any prefix of the reads it has completed a prefix of them. -/
+/-- **C11.1 (abstract)**  For every codec satisfying the framing/parsing laws, every list of valid messages
+and every way of cutting their byte stream into reads (empty reads, several messages per read, cuts inside a
+message): the receiver completes exactly the sent messages, in order, each once, normalised, with nothing left
+in its buffer; and after any prefix of the reads it has completed a prefix of them. -/
 theorem link_refinement {M B : Type} (C : Codec M B) (h : C.Laws) (ms : List M) (reads : List (List B))
-    (hcut : reads.flatten = C.stream ms) :
+    (hv : ∀ m, m ∈ ms → C.Valid m) (hcut : reads.flatten = C.stream ms) :
     C.recv [] reads = (ms.map C.norm, []) ∧
     ∀ k, ∃ later, (C.recv [] (reads.take k)).1 ++ later = ms.map C.norm := by
   have total : C.recv [] reads = (ms.map C.norm, []) := by
-    rw [C.recv_flatten h, hcut, C.feed_stream h]
+    rw [C.recv_flatten h [] reads h.empty, hcut, C.feed_stream h ms hv]
   refine ⟨total, fun k => ?_⟩
   have hsplit : reads.flatten = (reads.take k).flatten ++ (reads.drop k).flatten := by
     rw [← List.flatten_append, List.take_append_drop]
-  have := C.recv_flatten h [] reads
+  have := C.recv_flatten h [] reads h.empty
   rw [total, hsplit, h.split] at this
   refine ⟨(C.feed (C.feed [] (reads.take k).flatten).2 (reads.drop k).flatten).1, ?_⟩
-  rw [C.recv_flatten h]
+  rw [C.recv_flatten h [] _ h.empty]
   exact (congrArg Prod.fst this).symm
 
 /-- The laws are satisfiable: messages are their own single "byte". -/
-example : (⟨fun m => [m], fun buf x => (x, buf), id⟩ : Codec Nat Nat).Laws :=
-  ⟨fun buf x y => by simp, fun m => by simp, fun buf => by simp⟩
+example : (⟨fun m => [m], fun buf x => (x, buf), id, fun _ => True⟩ : Codec Nat Nat).Laws :=
+  ⟨fun buf x y => by simp, fun m _ => by simp, by simp⟩
+
+/-- **C11.1 (txdbus framing)**  The laws hold for C04's model of the framing: `feed` = the specification
+`Spec.frames` of buffer ++ read that C04 proves `dataReceived` computes, valid = well-formed raw messages.
+So `link_refinement` applies to it. -/
+theorem link_refinement_framing_laws : framingCodec.Laws := framingCodec_laws
+
+/-- **C11.1 (txdbus framing, code model)**  C04's code model `Txdbus.Proto.run` of
+`BasicDBusProtocol.dataReceived`, in binary mode with nothing buffered, given ANY cut into reads of the bytes
+of well-formed messages `ms` (what C03 `marshal_wellformed` says every constructed message is): it calls
+`rawDBusMessageReceived` exactly on `ms`, in order, each once, and ends with an empty buffer; after the first
+`k` reads it has delivered a prefix of `ms`.  Each delivered message being the raw bytes written, C03's
+`parse_marshal` applies to it verbatim (that half is cited, not composed: see notes/C11.md). -/
+theorem link_refinement_txdbus_framing {α : Type} (A : Txdbus.Proto.Auth α) (s : Txdbus.Proto.St α)
+    (ms : List Txdbus.Bytes) (reads : List Txdbus.Bytes)
+    (ha : s.authenticated = true) (hf : Txdbus.Proto.Framed s) (hbuf : s.buffer = [])
+    (hwf : ∀ m ∈ ms, Txdbus.Proto.Spec.WellFormed m) (hcut : reads.flatten = ms.flatten) :
+    (Txdbus.Proto.run A s reads).2 = ms.map Txdbus.Proto.Effect.msg ∧
+    (Txdbus.Proto.run A s reads).1.buffer = [] ∧
+    ∀ k, ∃ later, (framingCodec.recv [] (reads.take k)).1 ++ later = ms := by
+  obtain ⟨h1, h2⟩ := link_framing_txdbus A s ms reads ha hf hbuf hwf hcut
+  refine ⟨h1, h2, fun k => ?_⟩
+  have hc : reads.flatten = framingCodec.stream ms := by
+    rw [hcut]; simp [Codec.stream, framingCodec]
+  obtain ⟨later, hl⟩ := (link_refinement framingCodec framingCodec_laws ms reads hwf hc).2 k
+  exact ⟨later, by simpa [framingCodec] using hl⟩
 
 /-! ## 2. the stage invariant -/
 
@@ -148,37 +175,146 @@ theorem C11_completion_always_reachable (w : World V) (n : Nat) (first : Nat →
   refine ⟨more, by rw [e]; exact hq, fun a ha r hr hd => ?_⟩
   exact C11_end_to_end w n first (steps ++ more) (by rw [e]; exact hq) a ha r hr hd
 
+/-! ## 3d. the proxy side meets the exporter side -/
+
+/-- **C11.3d**  A call made through a proxy whose interface list AGREES with the exported object
+(`Proxy.AgreesWith`: every listed interface is the first interface of that name the object exports - an
+explicit proxy declared like the exporter; an introspected one by C15's round trip) is accepted by
+`handleMethodCallMessage` for exactly the interface `i` and method `m` the proxy rule selected, bound to the
+function `f` the documented resolution order of `executeMethod` gives; and the record handed to
+`conn.callRemote` asks for `m`'s return signature.  Side conditions, all informative: the selected interface has a
+non-empty name, `(i.name, member)` is not one of the three pairs the handler answers itself
+(`Peer.Ping`, `Introspectable.Introspect`, `ObjectManager.GetManagedObjects` shadow user methods), the argument
+count fits, and some function is bound (`resolveImpl`; otherwise the answer is `NotImplementedError`). -/
+theorem agreeing_proxy_accepted (w : World V) (px : Proxy) (o : ExpObj) (kw : Option String) (member : String)
+    (args : List V) (i : Iface) (m : MethodDecl) (f : Func)
+    (hobj : lookupObj px.path (w.exports px.dest) = some o)
+    (hag : px.AgreesWith o)
+    (hl : proxyLookup kw member px.ifaces = some (i, m))
+    (hn : args.length = m.nargs)
+    (hname : i.name ≠ "")
+    (hnb : NotBuiltin i.name member)
+    (himpl : o.resolveImpl i.name member = some f) :
+    ∃ r0 : CallRec V, proxyResolve (.viaProxy px kw member args) = .ok r0 ∧
+      r0.dest = px.dest ∧ r0.args = args ∧ r0.retSig = some m.sigOut ∧
+      check w r0.dest r0.path r0.iface r0.member r0.sig = .run i m f :=
+  ⟨_, proxyResolve_ok hl hn, rfl, rfl, rfl, agreeing_proxy_check w hobj hag hl hname hnb himpl⟩
+
+/-- Every issued call was made by a `call` step of the schedule (the logs are not free-floating). -/
+theorem issued_from_call_steps (w : World V) (n : Nat) (first : Nat → Nat) (steps : List (Step V))
+    (a : Nat) (r : CallRec V) (hr : r ∈ ((run w (Net.init n first) steps).cl a).issued) :
+    ∃ req r0, Step.call a req ∈ steps ∧ proxyResolve req = .ok r0 ∧ r = { r0 with serial := r.serial } := by
+  rcases run_issued w steps _ a r hr with h | h
+  · simp [Net.init, Client.init] at h
+  · exact h
+
+/-- Every result an exporter answered with is the result a step of the schedule gave the method: "what it
+returned" is the `res` of a `toClient j (now res)` or of a `resolve j tok res`. -/
+theorem result_from_step (w : World V) (n : Nat) (first : Nat → Nat) (steps : List (Step V))
+    (j : Nat) (sender : Option Nat) (serial : Nat) (so : String) (nr : Nat) (res : Result V)
+    (h : (sender, serial, Answer.result so nr res) ∈ ((run w (Net.init n first) steps).cl j).answers) :
+    Step.toClient j (.now res) ∈ steps ∨ ∃ tok, Step.resolve j tok res ∈ steps := by
+  rcases run_answers w steps _ j _ h with g | g
+  · simp [Net.init, Client.init] at g
+  · exact g so nr res rfl
+
+/-- **C11 (headline).**  In every quiescent reachable state, for every call that client `a` made through a
+proxy agreeing with the object `o` exported by the attached client `px.dest` (hypotheses of
+`agreeing_proxy_accepted`): the function `f` bound to the selected method ran exactly once on the exporter,
+with the proxy's path, the selected interface, the member and EQUAL ARGUMENTS; it produced some result `res`
+given by a step of the schedule; the exporter answered exactly once; and the caller's Deferred fired exactly
+once with `outcomeOf (some m.sigOut) (replyOf w (result …  res))` - which `C11_returns_what_it_returned`
+spells out as the returned value or the mirrored RemoteError.  Not satisfiable by a model whose dispatch
+refuses the call: the invocation list is non-empty. -/
+theorem C11_call_through_agreeing_proxy (w : World V) (n : Nat) (first : Nat → Nat) (steps : List (Step V))
+    (hq : (run w (Net.init n first) steps).Quiescent)
+    (a : Nat) (ha : a < n) (px : Proxy) (o : ExpObj) (kw : Option String) (member : String) (args : List V)
+    (i : Iface) (m : MethodDecl) (f : Func)
+    (hpd : px.dest < n)
+    (hobj : lookupObj px.path (w.exports px.dest) = some o)
+    (hag : px.AgreesWith o)
+    (hl : proxyLookup kw member px.ifaces = some (i, m))
+    (hn : args.length = m.nargs)
+    (hname : i.name ≠ "")
+    (hnb : NotBuiltin i.name member)
+    (himpl : o.resolveImpl i.name member = some f)
+    (r : CallRec V) (hr : r ∈ ((run w (Net.init n first) steps).cl a).issued)
+    (hfrom : ∃ r0, proxyResolve (.viaProxy px kw member args) = .ok r0 ∧ r = { r0 with serial := r.serial }) :
+    ∃ res,
+      ((run w (Net.init n first) steps).cl px.dest).invocations.filter (invKey a r.serial) =
+        [{ sender := some a, serial := r.serial, path := px.path, iface := i.name, member := member,
+           args := args, impl := f.id }] ∧
+      ((run w (Net.init n first) steps).cl px.dest).answers.filter (ansKey a r.serial) =
+        [(some a, r.serial, .result m.sigOut m.nret res)] ∧
+      ((run w (Net.init n first) steps).cl a).completions.filter (complKey r.serial) =
+        [(r.serial, outcomeOf (some m.sigOut) (replyOf w (.result m.sigOut m.nret res)))] ∧
+      (Step.toClient px.dest (.now res) ∈ steps ∨ ∃ tok, Step.resolve px.dest tok res ∈ steps) := by
+  obtain ⟨r0, hp, hr0⟩ := hfrom
+  rw [proxyResolve_ok hl hn] at hp
+  injection hp with hp
+  subst hp
+  have hdest : r.dest = px.dest := by rw [hr0]
+  have hpath : r.path = px.path := by rw [hr0]
+  have hif : r.iface = some i.name := by rw [hr0]
+  have hmem : r.member = member := by rw [hr0]
+  have hsig : r.sig = m.sigIn := by rw [hr0]
+  have hargs : r.args = args := by rw [hr0]
+  have hret : r.retSig = some m.sigOut := by rw [hr0]
+  have hck : check w r.dest r.path r.iface r.member r.sig = .run i m f := by
+    rw [hdest, hpath, hif, hmem, hsig]
+    exact agreeing_proxy_check w hobj hag hl hname hnb himpl
+  obtain ⟨oc, ans, hc⟩ := C11_end_to_end w n first steps hq a ha r hr (by rw [hdest]; exact hpd)
+  have hfit := hc.fits
+  simp only [AnswerFits, hck] at hfit
+  obtain ⟨res, hans⟩ := hfit
+  have hinv := hc.invoked
+  simp only [hck] at hinv
+  have hansw := hc.answered
+  have honce := hc.once
+  rw [hc.outcome, hans, hret] at honce
+  rw [hans] at hansw
+  rw [hdest] at hinv hansw
+  rw [hpath, hmem, hargs] at hinv
+  refine ⟨res, hinv, hansw, honce, ?_⟩
+  have hin : (some a, r.serial, Answer.result m.sigOut m.nret res) ∈
+      ((run w (Net.init n first) steps).cl px.dest).answers := by
+    have : (some a, r.serial, Answer.result m.sigOut m.nret res) ∈
+        ((run w (Net.init n first) steps).cl px.dest).answers.filter (ansKey a r.serial) := by
+      rw [hansw]; exact List.mem_singleton.mpr rfl
+    exact (List.mem_filter.mp this).1
+  exact result_from_step w n first steps px.dest _ _ _ _ res hin
+
 /-! ## 4. what the completion is -/
 
 /-- **C11.4**  The completion of an accepted call whose proxy declares the same return signature as the
-exporter (`retSig = some sigOut`: explicit declaration, or introspection by C15), in terms of what the
-method did:
+exporter (`retSig = some sigOut`, which `agreeing_proxy_accepted` gives), in terms of what the method did:
 
-1. it returned an object that is not a list/tuple (one declared return value that is not a struct,
-   encodable): the completion is that value;
-2. it returned a list/tuple for one declared non-struct return value: the completion is that object;
-3. it returned a sequence of values for several (or no) declared return values: the completion is the
-   list of these values;
-4. nothing is declared: the completion is None, whatever was returned;
-5. it raised an exception: the completion is RemoteError with the exception's DBus name (its
-   `dbusErrorName`, else `org.txdbus.PythonException.<class>`) and its text - provided that name is a
-   valid error name; otherwise the name is `org.txdbus.InvalidErrorName` (documented);
-6. one declared return value that IS a struct: the completion is the one-element list holding it (the
-   convention of `_cbCvtReply` that the upstream tests pin down). -/
+1. it returned an object that is not a list/tuple, one non-struct return value declared: that value;
+2. it returned a list/tuple for one declared non-struct return value: that object;
+3. it returned a sequence of values for several declared return values: the list of these values;
+4. nothing is declared: None, whatever was returned;
+5. it raised an exception: RemoteError with the exception's DBus name (its `dbusErrorName`, else the
+   `PythonException.` prefix of the source + class name) and its text after `send_error`'s NUL escape -
+   provided the name is a valid error name (otherwise `InvalidErrorName`, documented);
+6. one declared return value that IS a struct (the method returned a list/tuple, `nret = 1`, the signature
+   starts with the struct character of the source): the one-element list holding it - the convention of
+   `_cbCvtReply` that the upstream tests pin down (notes/C11.md, `struct-return-wrapped`). -/
 theorem C11_returns_what_it_returned (w : World V) (sigOut : String) (nret : Nat) :
-    (∀ v, sigOut ≠ "" → sigOut.toList.head? ≠ some '(' → w.encErr sigOut [v] = none →
+    (∀ v, sigOut ≠ "" → sigOut.toList.head? ≠ some Gen.C08Client.structOpen → w.encErr sigOut [v] = none →
       outcomeOf (some sigOut) (replyOf w (.result sigOut nret (.value (.obj v)))) = .single v) ∧
-    (∀ self elems, sigOut ≠ "" → sigOut.toList.head? ≠ some '(' → nret = 1 → w.encErr sigOut [self] = none →
+    (∀ self elems, sigOut ≠ "" → sigOut.toList.head? ≠ some Gen.C08Client.structOpen → nret = 1 →
+      w.encErr sigOut [self] = none →
       outcomeOf (some sigOut) (replyOf w (.result sigOut nret (.value (.seq self elems)))) = .single self) ∧
     (∀ self e1 e2 rest, sigOut ≠ "" → nret ≠ 1 → w.encErr sigOut (e1 :: e2 :: rest) = none →
       outcomeOf (some sigOut) (replyOf w (.result sigOut nret (.value (.seq self (e1 :: e2 :: rest))))) =
         .many (e1 :: e2 :: rest)) ∧
     (∀ r, sigOut = "" → outcomeOf (some sigOut) (replyOf w (.result sigOut nret (.value r))) = .none) ∧
-    (∀ e : Exc, w.validErrorName (e.dbusName.getD ("org.txdbus.PythonException." ++ e.cls)) = true →
+    (∀ e : Exc, w.validErrorName (e.dbusName.getD (Gen.Dispatch.pyExceptionPrefix ++ e.cls)) = true →
       outcomeOf (some sigOut) (replyOf w (.result sigOut nret (.raised e))) =
-        .remoteError (e.dbusName.getD ("org.txdbus.PythonException." ++ e.cls)) e.text) ∧
-    (∀ v, sigOut.toList.head? = some '(' → w.encErr sigOut [v] = none →
-      outcomeOf (some sigOut) (replyOf w (.result sigOut nret (.value (.obj v)))) = .many [v]) := by
+        .remoteError (e.dbusName.getD (Gen.Dispatch.pyExceptionPrefix ++ e.cls)) (escapeText e.text)) ∧
+    (∀ self elems, sigOut.toList.head? = some Gen.C08Client.structOpen → nret = 1 →
+      w.encErr sigOut [self] = none →
+      outcomeOf (some sigOut) (replyOf w (.result sigOut nret (.value (.seq self elems)))) = .many [self]) := by
   refine ⟨?_, ?_, ?_, ?_, ?_, ?_⟩
   · intro v h1 h2 h3
     simp [outcomeOf, replyOf, valueReply, replyBody, cvtReply, h1, h2, h3]
@@ -196,10 +332,10 @@ theorem C11_returns_what_it_returned (w : World V) (sigOut : String) (nret : Nat
     | some nm =>
       simp only [hdn, Option.getD] at h
       simp [outcomeOf, replyOf, errorReply, hdn, h]
-  · intro v h2 h3
+  · intro self elems h2 h3 h4
     have h1 : sigOut ≠ "" := by
       intro e; rw [e] at h2; simp at h2
-    simp [outcomeOf, replyOf, valueReply, replyBody, cvtReply, h1, h2, h3]
+    simp [outcomeOf, replyOf, valueReply, replyBody, cvtReply, h1, h2, h3, h4]
 
 /-! ## 5. the hypotheses are satisfiable; the unrepaired bus violates the property -/
 
@@ -207,10 +343,16 @@ def exIface : Iface :=
   { name := "org.t.I", methods := [{ name := "echo", sigIn := "v", sigOut := "v", nargs := 1, nret := 1 },
                                    { name := "slow", sigIn := "", sigOut := "ss", nargs := 0, nret := 2 }] }
 
+/-- one class: `dbus_echo` (plain) and a function decorated for (org.t.I, slow) -/
+def exObj : ExpObj :=
+  { path := "/o",
+    classes := [{ ifaces := some [exIface],
+                  attrs := [("dbus_echo", ⟨1, none⟩), ("impl_slow", ⟨2, some ("org.t.I", "slow")⟩)] }] }
+
 /-- client 2 exports `/o`; every body encodes; every error name is valid -/
 def exWorld : World Nat :=
-  { exports := fun j => if j = 2 then [{ path := "/o", ifaces := [exIface] }] else [],
-    introspect := fun _ _ => none, managed := fun _ _ => 0, encErr := fun _ _ => none,
+  { exports := fun j => if j = 2 then [exObj] else [],
+    introspect := fun _ _ => none, managed := fun _ _ => .ok 0, encErr := fun _ _ => none,
     validErrorName := fun _ => true }
 
 def exProxy : Proxy := { dest := 2, path := "/o", ifaces := [exIface] }
@@ -246,8 +388,40 @@ example : exNet.Quiescent ∧
 ran once with the call's arguments and the true sender. -/
 example : (exNet.cl 0).completions = [(1, .single 8)] ∧ (exNet.cl 1).completions = [(1, .many [5, 6])] ∧
     (exNet.cl 2).invocations =
-      [{ sender := some 1, serial := 1, path := "/o", iface := "org.t.I", member := "slow", args := [] },
-       { sender := some 0, serial := 1, path := "/o", iface := "org.t.I", member := "echo", args := [7] }] := by
+      [{ sender := some 1, serial := 1, path := "/o", iface := "org.t.I", member := "slow", args := [], impl := 2 },
+       { sender := some 0, serial := 1, path := "/o", iface := "org.t.I", member := "echo", args := [7], impl := 1 }] := by
+  decide
+
+/-- The hypotheses of `agreeing_proxy_accepted` / `C11_call_through_agreeing_proxy` are met by the example:
+the proxy's object is found, the proxy agrees with it, `echo` is selected and bound to function 1. -/
+example : lookupObj exProxy.path (exWorld.exports exProxy.dest) = some exObj ∧
+    exProxy.AgreesWith exObj ∧
+    exObj.resolveImpl "org.t.I" "echo" = some ⟨1, none⟩ ∧
+    exObj.resolveImpl "org.t.I" "slow" = some ⟨2, some ("org.t.I", "slow")⟩ ∧
+    (proxyLookup none "echo" exProxy.ifaces).map (fun p => p.2.name) = some "echo" ∧
+    NotBuiltin "org.t.I" "echo" := by
+  refine ⟨by decide, ?_, by decide, by decide, by decide, by unfold NotBuiltin; decide⟩
+  intro i hi
+  simp only [exProxy, List.mem_singleton] at hi
+  subst hi
+  decide
+
+def exMixed : ExpObj :=
+  { path := "/m",
+    classes := [{ ifaces := none,
+                  attrs := [("dbus_foo", ⟨1, none⟩), ("b_foo", ⟨2, some ("org.t.B", "foo")⟩)] }] }
+
+def exDeco : ExpObj :=
+  { path := "/d",
+    classes := [{ ifaces := none,
+                  attrs := [("dbus_foo", ⟨1, some ("org.t.A", "foo")⟩), ("b_foo", ⟨2, some ("org.t.B", "foo")⟩)] }] }
+
+/-- The documented resolution order of `executeMethod` (DESIGN C10 "Binding"): a plain `dbus_foo` serves
+`foo` on EVERY interface, also on one for which a decorated implementation exists; the decorated function is
+reached only when `dbus_foo` is absent or decorated for another interface; nothing bound = None. -/
+example : exMixed.resolveImpl "org.t.B" "foo" = some ⟨1, none⟩ ∧
+    exDeco.resolveImpl "org.t.B" "foo" = some ⟨2, some ("org.t.B", "foo")⟩ ∧
+    exDeco.resolveImpl "org.t.C" "foo" = none := by
   decide
 
 /-- The model of the bus BEFORE the repair (Net/OldBus.lean), with a re-encoding that raises for the body
@@ -265,6 +439,8 @@ theorem prefix_model_violates :
 end Txdbus.Net
 
 #print axioms Txdbus.Net.link_refinement
+#print axioms Txdbus.Net.link_refinement_framing_laws
+#print axioms Txdbus.Net.link_refinement_txdbus_framing
 #print axioms Txdbus.Net.call_stage_invariant
 #print axioms Txdbus.Net.call_in_exactly_one_stage
 #print axioms Txdbus.Net.queues_hold_only_issued_calls
@@ -273,5 +449,9 @@ end Txdbus.Net
 #print axioms Txdbus.Net.C11_end_to_end
 #print axioms Txdbus.Net.quiescence_reachable
 #print axioms Txdbus.Net.C11_completion_always_reachable
+#print axioms Txdbus.Net.agreeing_proxy_accepted
+#print axioms Txdbus.Net.issued_from_call_steps
+#print axioms Txdbus.Net.result_from_step
+#print axioms Txdbus.Net.C11_call_through_agreeing_proxy
 #print axioms Txdbus.Net.C11_returns_what_it_returned
 #print axioms Txdbus.Net.prefix_model_violates
